@@ -6,6 +6,7 @@ import (
 	"fmt"
 	"io"
 	"os"
+	"path/filepath"
 	"runtime"
 	"strings"
 
@@ -235,6 +236,9 @@ Usage:
 	if err != nil {
 		return &queryParseError{fname, arg, err}
 	}
+	if opts.FromFile {
+		resolveSearchPaths(query, filepath.Dir(fname))
+	}
 	modulePaths := opts.ModulePaths
 	if len(modulePaths) == 0 && addDefaultModulePaths {
 		modulePaths = []string{"~/.jq", "$ORIGIN/../lib/gojq", "$ORIGIN/../lib"}
@@ -278,6 +282,26 @@ Usage:
 		iter = newNullInputIter()
 	}
 	return cli.process(iter, code)
+}
+
+// resolveSearchPaths makes the relative search paths in the imports of a
+// query file relative to the directory of the file, like those of a module.
+func resolveSearchPaths(query *gojq.Query, dir string) {
+	for _, i := range query.Imports {
+		if i.Meta == nil {
+			continue
+		}
+		for _, e := range i.Meta.KeyVals {
+			if (e.Key == "search" || e.KeyString == "search") && e.Val != nil &&
+				e.Val.Object == nil && e.Val.Array == nil && e.Val.Number == "" &&
+				!e.Val.Null && !e.Val.True && !e.Val.False {
+				if path := e.Val.Str; !filepath.IsAbs(path) &&
+					!strings.HasPrefix(path, "~/") && !strings.HasPrefix(path, "$ORIGIN/") {
+					e.Val.Str = filepath.Join(dir, path)
+				}
+			}
+		}
+	}
 }
 
 // parseJSONArg parses the text given to --argjson or --jsonargs,
